@@ -4,6 +4,7 @@ import (
 	"encoding/json"
 	"fmt"
 	"os"
+	"regexp"
 	"sort"
 
 	"github.com/cloudwego/thriftgo/internal/verifsim/simrt"
@@ -21,6 +22,10 @@ type BatchReq struct {
 	KeepLog       bool          `json:"keep_log,omitempty"`
 	Samples       int           `json:"samples,omitempty"`
 	Hashes        bool          `json:"hashes,omitempty"` // report the event-log hash of every run (determinism self-test)
+	// KnownSigRe: signatures of listed known findings.  The first world of each is reported (Known),
+	// further ones are only counted: a listed finding must not use up the violation budget and end
+	// the exploration early.
+	KnownSigRe []string `json:"known_sig_re,omitempty"`
 }
 
 // Outcome of one world.
@@ -58,6 +63,8 @@ type BatchRes struct {
 	Samples    []json.RawMessage `json:"samples,omitempty"`
 	Outcomes   []*Outcome        `json:"outcomes,omitempty"`
 	Hashes     []string          `json:"hashes,omitempty"`
+	Known      []Violation       `json:"known,omitempty"`
+	KnownHits  int               `json:"known_hits,omitempty"`
 }
 
 // Agg collects statistics across the worlds of a batch.
@@ -122,6 +129,13 @@ func runBatch(path string) {
 	if req.MaxViolations <= 0 {
 		req.MaxViolations = 3
 	}
+	var knownRe []*regexp.Regexp
+	for _, k := range req.KnownSigRe {
+		if re, err := regexp.Compile(k); err == nil {
+			knownRe = append(knownRe, re)
+		}
+	}
+	knownSeen := map[string]bool{}
 	one := func(spec *simrt.Spec, explicit bool) bool {
 		if req.KeepLog {
 			spec.KeepLog = true
@@ -145,6 +159,16 @@ func runBatch(path string) {
 			res.Samples = append(res.Samples, sb)
 		}
 		if o.Class != "" && !explicit {
+			for _, re := range knownRe {
+				if re.MatchString(o.Sig) {
+					res.KnownHits++
+					if !knownSeen[o.Sig] {
+						knownSeen[o.Sig] = true
+						res.Known = append(res.Known, Violation{Spec: spec, Class: o.Class, Msg: o.Msg, Sig: o.Sig, LogHash: o.LogHash})
+					}
+					return true
+				}
+			}
 			res.Violations = append(res.Violations, Violation{Spec: spec, Class: o.Class, Msg: o.Msg, Sig: o.Sig, LogHash: o.LogHash})
 			if len(res.Violations) >= req.MaxViolations {
 				return false
